@@ -148,6 +148,15 @@ FOLDABLE_TIME = {
 }
 
 
+def to_shape_const(v):
+    """python value -> shape (lists / tuples become literal shapes so that they can be unpacked and iterated)"""
+    if isinstance(v, list):
+        return ListLit([to_shape_const(x) for x in v])
+    if isinstance(v, tuple):
+        return TupS([to_shape_const(x) for x in v])
+    return Const(v)
+
+
 def call_lib(I, name, args, kwargs, node):
     a = args
     if name in ("hashlib.new", "hashlib.sha256", "hashlib.sha1", "hashlib.md5", "hashlib.sha512", "hashlib.blake2b"):
@@ -197,6 +206,20 @@ def call_lib(I, name, args, kwargs, node):
             init = kwargs["initial"].v if "initial" in kwargs else None
             return ListLit([Const(v) for v in itertools.accumulate([x.v for x in seq.elts], initial=init)])
         return Top("itertools.accumulate of a non-constant sequence", deps=I.leaves(seq) if seq is not None else ())
+    if name in ("re.split", "re.sub", "re.subn", "re.findall", "re.escape") and all(isinstance(x, Const) for x in list(a) + list(kwargs.values())):
+        import re
+        try:
+            out = getattr(re, name.split(".")[1])(*[x.v for x in a], **{k: v.v for k, v in kwargs.items()})
+        except Exception as e:
+            raise _Raise.of(e, name)
+        return to_shape_const(out)
+    if name in ("re.match", "re.fullmatch", "re.search") and a and isinstance(a[0], Const) and isinstance(a[0].v, str):
+        import re
+        try:
+            pat = re.compile(a[0].v, *[x.v for x in a[2:] if isinstance(x, Const)])
+        except re.error as e:
+            raise _Raise.of(e, name)
+        return regex_match(I, pat, name.split(".")[1], list(a[1:2]), node)
     if name == "re.compile":
         import re
         if a and isinstance(a[0], Const) and isinstance(a[0].v, str) and all(isinstance(x, Const) for x in list(a[1:]) + list(kwargs.values())):
@@ -751,6 +774,8 @@ def builtin(I, name, a, kwargs, node, _no_override=False):
             vals = [to_py(x) for x in (seq_elts(I, a[0], node) if len(a) == 1 else a)]
         except (ShapeError, TypeError):
             vals = [_NOPY]
+        if not vals and name in ("any", "all", "sum") and not kwargs:
+            return Const({"any": False, "all": True, "sum": 0}[name])
         if vals and all(v is not _NOPY for v in vals) and not kwargs:
             try:
                 return Const({"min": min, "max": max, "sum": sum, "any": any, "all": all}[name](vals))
